@@ -92,7 +92,15 @@ func nudge(t *rapid.T, v float64, label string) float64 {
 func extras(t *rapid.T, n int, label string) []float64 {
 	out := make([]float64, n)
 	for i := range out {
-		out[i] = rapid.Float64().Draw(t, label)
+		// a Z or M is often NaN ("no measure") or otherwise not a number to compute with
+		switch rapid.IntRange(0, 5).Draw(t, label+"kind") {
+		case 0, 1:
+			out[i] = math.NaN()
+		case 2:
+			out[i] = math.Inf(1 - 2*rapid.IntRange(0, 1).Draw(t, label+"sign"))
+		default:
+			out[i] = rapid.Float64().Draw(t, label)
+		}
 	}
 	return out
 }
@@ -394,6 +402,37 @@ func prop(cs Case) error {
 		}
 		if r := int(f.f(sa, sb, sc)); r != got {
 			return fmt.Errorf("%s with coinciding points passed as one slice = %d, %d with separate slices", f.name, r, got)
+		}
+		// the caller's three buffers are used again: overwritten in place with the same
+		// points in other roles, and asked again straight away (a loop over the vertices
+		// of a ring does this with one Coord variable per role)
+		p, q, r := append(geom.Coord{}, a...), append(geom.Coord{}, b...), append(geom.Coord{}, c...)
+		load := func(dst geom.Coord, src []float64) geom.Coord {
+			dst = dst[:0]
+			return append(dst, src...) // same storage whenever it is large enough
+		}
+		if r0 := int(f.f(p, q, r)); r0 != got {
+			return fmt.Errorf("%s on copies of the arguments = %d, want %d", f.name, r0, got)
+		}
+		for _, step := range []struct {
+			what    string
+			x, y, z []float64
+			want    int
+		}{
+			{"first two exchanged", b, a, c, -got},
+			{"first := third", c, a, c, 0},
+			{"rotated", c, b, a, -got},
+			{"second := first", c, c, a, 0},
+			{"back to the start", a, b, c, got},
+			{"only the first overwritten, with the second", b, b, c, 0},
+			{"only the first overwritten, back", a, b, c, got},
+		} {
+			if cap(p) >= len(step.x) && cap(q) >= len(step.y) && cap(r) >= len(step.z) {
+				p, q, r = load(p, step.x), load(q, step.y), load(r, step.z)
+				if rr := int(f.f(p, q, r)); rr != step.want {
+					return fmt.Errorf("%s after the caller overwrote its own three coordinates in place (%s) = %d, want %d", f.name, step.what, rr, step.want)
+				}
+			}
 		}
 		// the three coordinates as windows of one flat array (what Coord(i) and slicing
 		// FlatCoords hand out: each window's capacity runs on over its neighbours), laid
